@@ -39,9 +39,12 @@ MAX_DECISIONS = 4000
 
 class _Watchdog:
     """z3's own `timeout` parameter is not always honoured inside non-linear preprocessing; a per-process watchdog thread
-    interrupts the context when a query overruns its deadline (the query then answers `unknown`)."""
+    interrupts the context when a query overruns its deadline (the query then answers `unknown`).  Arming, disarming and
+    interrupting happen under one lock, so no interrupt can be delivered after the query it was meant for has returned."""
 
     def __init__(self):
+        import threading
+        self.lock = threading.Lock()
         self.deadline = None
         self.ctx = None
         self.thread = None
@@ -51,27 +54,31 @@ class _Watchdog:
     def _loop(self):
         while True:
             time.sleep(0.25)
-            d = self.deadline
-            if d is not None and time.time() > d:
-                try:
-                    self.ctx.interrupt()
-                    self.fired += 1
-                except Exception:   # noqa
-                    pass
-                self.deadline = None
+            with self.lock:
+                d = self.deadline
+                if d is not None and time.time() > d:
+                    try:
+                        self.ctx.interrupt()
+                        self.fired += 1
+                    except Exception:   # noqa
+                        pass
+                    self.deadline = None
 
     def arm(self, ctx, deadline):
         import os
         import threading
         if self.thread is None or self.pid != os.getpid():
             self.pid = os.getpid()
+            self.lock = threading.Lock()
             self.thread = threading.Thread(target=self._loop, daemon=True)
             self.thread.start()
-        self.ctx = ctx
-        self.deadline = deadline
+        with self.lock:
+            self.ctx = ctx
+            self.deadline = deadline
 
     def disarm(self):
-        self.deadline = None
+        with self.lock:
+            self.deadline = None
 
 
 _WATCHDOG = _Watchdog()
@@ -975,6 +982,15 @@ class SymReal:
     for _n in UF1_NAMES:
         locals()[_n] = _uf1(_n)
     del _n, _uf1
+
+    def __array_function__(self, func, types, args, kwargs):
+        name = getattr(func, '__name__', '')
+        if name in ('isclose', 'allclose') and len(args) >= 2 and not any(isinstance(a, np.ndarray) and a.ndim > 0 for a in args[:2]):
+            a, b = args[0], args[1]
+            rtol = kwargs.get('rtol', args[2] if len(args) > 2 else 1e-05)
+            atol = kwargs.get('atol', args[3] if len(args) > 3 else 1e-08)
+            return abs(a - b) <= atol + rtol * abs(b)
+        return func._implementation(*args, **kwargs)
 
     def __array_ufunc__(self, ufunc, method, *inputs, **kw):
         if method != '__call__':
